@@ -15,7 +15,23 @@ CLAIMED = {
             'Every encoded message is checked byte-wise by an independent tokeniser/validator: framing fields, BodyLength, CheckSum, token syntax, '
             'section order, schema position order under random insertion orders, group structure.',
             'Same generator as C01; the validator knows the schema only through the dumped trait tables.', '4/C02'),
+    'C04': ('E1', 'exploration', 'property-based testing (Hypothesis): conforming messages + single generated deviations vs a reference strict validator',
+            'Reference-encoded conforming messages must be accepted with every field retained (typed comparison); each generated deviation class '
+            '(checksum, unknown tag at any boundary, tag >= 65536 aliasing, misplaced header/body field, duplicate, missing mandatory, bad group start) must throw.',
+            'Inputs outside both sets (e.g. count != number of elements, which the statement does not list) are not generated.', '4/C04'),
+    'C05': ('E1', 'exploration', 'property-based testing (Hypothesis): metamorphic relation strict-vs-permissive + token-multiset oracle on the re-encoding',
+            'Conforming messages with 1-4 unknown tokens at generated boundaries (header/body/trailer/group elements): accepted, known fields equal the '
+            'generated values, re-encoding well-framed with token multiset == known + unknown (each once), known order preserved.',
+            'Unknown tags are tags absent from the whole dictionary; where in its section an unknown token is re-emitted is not constrained.', '4/C05'),
+    'C06': ('E1', 'exploration', 'property-based testing (Hypothesis): round-trip of arbitrary byte content through every Length/data pair',
+            'All Length/data pairs reachable in header, body, trailer and groups with contents over all 256 byte values (SOH, =, NUL, checksum look-alikes), '
+            'lengths 0..2047; decode of the reference encoding, library encode, re-encode.',
+            'Messages are kept below 7000 bytes (the encoder buffer limit is C03\'s subject).', '4/C06'),
+    'C11': ('E1', 'exploration', 'property-based testing (Hypothesis) with differential oracle: clone/copy_legal/move_legal results vs reference encoding',
+            'clone(), copy_legal and move_legal results of generated messages (nested groups included) each encode to the reference bytes; source destroyed under ASan after move.',
+            'Each object is encoded once.', '4/C11'),
 }
+
 
 ALL = ['C%02d' % i for i in range(1, 33)]
 
